@@ -25,6 +25,7 @@ TRANSLATED = {
     'C14': 'is_quadratic, is_transition_matrix, is_ergodic, is_fuzzy_ergodic, ergodic_mask',
     'C04': 'equilibrium_population (LAPACK eigen-solver as an oracle with the contract v M = v, v != 0), is_ergodic, ergodic_mask, row_normalize_matrix', 'C03': 'LumpedStateTraj.__init__, LumpedStateTraj.estimate_markov_model, LumpedStateTraj._estimate_markov_model (Hummer-Szabo projection), row_normalize_matrix, is_ergodic',
     'C10': 'the eigen-solver wrappers of msm/utils/linalg.py (left/right eigenvalues / eigenvectors, both nvals forms; LAPACK and argsort as oracles with the eigenpair / sorting contract), _implied_timescales (np.log as an oracle with the sign contract), the public implied_timescales',
+    'C18': 'the randomised kernels _propagate_MCMC_step, _propagate_MCMC, _estimate_waiting_times, _estimate_transition_times (msm): for EVERY stream of draws the result is the model function of (arguments, stream) - reproducibility from the generator state alone; purity of the arguments is the static argument-write analysis over all functions of the package',
     'C09': 'the public chapman_kolmogorov_test, _chapman_kolmogorov_test, _chapman_kolmogorov_test_md, _calc_times (estimators and the rounded geometric grid as oracles)', 'C19': '_split_array, open_limits, opentxt_limits, openmicrostates',
 }
 
